@@ -1415,8 +1415,30 @@ impl Hist {
                 w.violation("C04", "head_finished_not_yielded", format!("the future at the head of the queue has finished, the executor sleeps, and its output is not yielded ({})", self.desc));
             }
         }
-        if self.last == Last::Pending && !self.held.is_empty() && !w.viol.borrow().iter().any(|v| v.prop != "C04") && !self.kind.is_join() {
-            w.violation("C02", "not_all_yielded", format!("everything completed and woken, executor sleeps, {} still held", self.held.len()));
+        if self.last == Last::Pending && !self.held.is_empty() && !self.kind.is_join() && self.subj.is_some() {
+            // The honest executor sleeps with outputs still owed. Whether that is *only* a lost
+            // wake-up (C01) or also a loss of the outputs themselves (C02: "yielded exactly once
+            // if the collection keeps being polled") is decided by polling on regardless of
+            // notifications for a while.
+            let extra = 2 * self.held.len() as u64 + 4 * w.groups_bound.get() + w.cap_total.get() / 32 + 16;
+            let wk = self.last_waker;
+            for _ in 0..extra {
+                if self.poll(wk) == Last::Done || self.held.is_empty() || self.subj.is_none() {
+                    break;
+                }
+            }
+            if !self.held.is_empty() && self.last != Last::Done && self.subj.is_some() {
+                let (p, rule) = match self.kind {
+                    k if k.is_merge() => ("C11", "items_never_delivered"),
+                    k if k.is_adapter() => ("C10", "never_completes"),
+                    _ => ("C02", "not_yielded_although_polled"),
+                };
+                w.violation(
+                    p,
+                    rule,
+                    format!("everything completed and woken; {} still held after the executor slept and {extra} further unconditional polls ({})", self.held.len(), self.desc),
+                );
+            }
         }
         if self.last == Last::Done && self.kind.is_adapter() {
             // M-HINT offline: every recorded hint must bracket what was actually yielded afterwards
@@ -1580,6 +1602,11 @@ impl Hist {
     }
 }
 
+pub fn prop_tag(prop: u8) -> &'static str {
+    const TAGS: [&str; 19] = ["", "C01", "C02", "C03", "C04", "C05", "C06", "C07", "C08", "C09", "C10", "C11", "C12", "C13", "C14", "C15", "C16", "C17", "C18"];
+    TAGS.get(prop as usize).copied().unwrap_or("")
+}
+
 fn ctor_name(c: &Ctor) -> &'static str {
     match c {
         Ctor::New => "new",
@@ -1694,6 +1721,7 @@ fn run_history_once(p: &Params, hist_index: u64) -> HistResult {
     let mut h = Hist::new(seed, p.trace);
     h.suppress_refused = p.suppress_refused;
     let w = h.w.clone();
+    w.armed.set(prop_tag(p.prop));
     // fresh memory is filled with 0xA5 so that a never-written element is deterministically invalid
     alloc::set_poison(!p.no_poison);
     let kinds = kinds_for(p.prop);
@@ -1774,7 +1802,9 @@ pub fn finish_result(mut h: Hist) -> HistResult {
     let w = h.w.clone();
     // never leave anything alive that calls back into a world that is gone
     if let Some(s) = h.subj.take() {
+        world::beacon_phase(3);
         let _ = catch_unwind(AssertUnwindSafe(|| drop(s)));
+        world::beacon_phase(0);
     }
     w.drop_all_wakers();
     alloc::set_poison(false);
